@@ -85,6 +85,54 @@ def gen_query(rng, bn, nodes, J, allow_virtual=True, max_q=3, max_e=3):
     return query, ev, virt
 
 
+def multi_route_spec(rng):
+    """Networks in which an ancestor of the sink has several parents and one of them reaches the sink by
+    another route as well (Z->X, P->X, X->Q, Z->Q and larger relatives).  Node NAMES are drawn at random so
+    that set / dict iteration order - which drives the d-separation search used for pruning - differs from
+    case to case and from hash seed to hash seed.  Priors are far from uniform."""
+    alphabet = "abcdefghijklmnopqrstuvwxyz"
+    names = []
+    while len(names) < 6:
+        nm = "".join(rng.choice(alphabet) for _ in range(rng.randint(1, 4)))
+        if nm not in names:
+            names.append(nm)
+    z, p, x, q, w, y = names
+    edges = [(z, x), (p, x), (x, q), (z, q)]
+    nodes = [z, p, x, q]
+    extra = rng.random()
+    if extra < 0.35:                       # a longer second route and a second multi-parent ancestor
+        edges += [(w, x), (w, y), (y, q)]
+        nodes += [w, y]
+    elif extra < 0.6:                      # the sink's descendant is what is asked
+        edges += [(q, w)]
+        nodes += [w]
+    rng.shuffle(nodes)
+    card = {v: rng.choice([2, 2, 3]) for v in nodes}
+    kind = rng.choice(["id", "str", "int1", "perm"])
+    states = {v: gen.state_names_for(rng, v, card[v], kind) for v in nodes}
+    par = gen.parents_of(nodes, edges)
+    cpds = {}
+    for v in nodes:
+        pa = par[v][:]
+        rng.shuffle(pa)
+        qn = 1
+        for u in pa:
+            qn *= card[u]
+        if not pa:                         # skewed prior
+            col = [rng.choice([0.05, 0.1, 0.15]) for _ in range(card[v])]
+            col[rng.randrange(card[v])] = 1.0 - sum(col) + max(col)
+            tot = sum(col)
+            col = [c / tot for c in col]
+            col[0] = 1.0 - sum(col[1:])
+            table = [[c] for c in col]
+        else:
+            table = gen.rand_cpt(rng, card[v], qn, zeros=False)
+        cpds[v] = {"parents": pa, "table": table}
+    sink = q if extra >= 0.6 or extra < 0.35 else w
+    return {"nodes": nodes, "edges": [list(e) for e in edges], "card": card, "states": states, "cpds": cpds,
+            "latents": [], "kind": kind, "mr_sink": sink}
+
+
 def add_twins(rng, bn, max_joint=4096):
     """Redundant "sensor" nodes: a copy of an existing non-root node with the same parents (same declared
     order), same states and the same table.  Observing a node and its twin in the same state makes two
@@ -145,9 +193,16 @@ def gen_case(seed, idx, tier):
     rng = gen.rng_for("C01", seed, idx)
     use_virtual = rng.random() < 0.4
     bn = gen.rand_bn_spec(rng, n_range=(1, 7), max_joint=4096, tiny=0.25 if rng.random() < 0.3 else 0.0)
-    twins = add_twins(rng, bn) if rng.random() < 0.3 else []
+    multi_route = rng.random() < 0.15
+    if multi_route:
+        bn = multi_route_spec(rng)
+    twins = add_twins(rng, bn) if (rng.random() < 0.3 and not multi_route) else []
     nodes, J = oracle.joint_table(bn)
     query, ev, virt = gen_query(rng, bn, nodes, J, allow_virtual=use_virtual)
+    if multi_route and rng.random() < 0.7:
+        # ask about the sink with little or no evidence, so that pruning must keep EVERY ancestor
+        query, virt = [bn["mr_sink"]], []
+        ev = {k: v for k, v in ev.items() if k != bn["mr_sink"]} if rng.random() < 0.3 else {}
     if twins:
         force_twin_evidence(rng, bn, nodes, J, twins, query, ev, virt)
     elim = [v for v in nodes if v not in query and v not in ev]
@@ -224,6 +279,8 @@ def run_case(spec, ctx):
         likes[d["var"]] = np.array(d["vec"]) * likes.get(d["var"], 1.0)
     _, post = oracle.posterior(nodes, J, query, ev, likes)
     ctx.nontrivial = len(nodes) >= 2 and len(bn["edges"]) >= 1 and (len(ev) > 0 or len(query) < len(nodes))
+    if "mr_sink" in bn:
+        ctx.feature("multi-route-ancestors")
     if any(isinstance(n, str) and "tw" in n for n in ev):
         ctx.feature("twin-evidence")
     for f in ("virtual" if virt else None, "evidence" if ev else None, f"kind:{bn['kind']}",
